@@ -60,7 +60,13 @@ STEER = ("VERS", "WRAP", "DLM", "NULL", "STRT", "STOP", "STEP")
 
 def tasks(tier):
     b = BOUNDS[tier]
-    return [{"name": "%s/flag=%s" % (s, f), "params": {"site": s, "flag": f, "cap": b["junk_cap"]}, "weight": 2 if f else 1} for s in b["sites"] for f in b["flags"]]
+    out = [{"name": "%s/flag=%s" % (s, f), "params": {"site": s, "flag": f, "cap": b["junk_cap"]}, "weight": 2 if f else 1} for s in b["sites"] for f in b["flags"]]
+    # a parsable junk line carrying a 19/20-digit integer (all digits symbolic): conversion corner
+    for s in (["W-end", "P-end"] if tier == "quick" else list(SITES)):
+        for f in b["flags"]:
+            for nd in (19, 20):
+                out.append({"name": "%s/flag=%s/longint%d" % (s, f, nd), "params": {"site": s, "flag": f, "cap": 0, "longint": nd}})
+    return out
 
 
 def snapshot_sym(las):
@@ -79,8 +85,16 @@ def harness(ns, params):
 
     def run():
         A = core.assume
-        J = SymStr.fresh("J", cap)
-        A(allc(J, printable_ascii))
+        if params.get("longint"):
+            from symlas.values import concat
+
+            core.OPTS["concretize"] = True
+            dg = SymStr.fresh("dg", params["longint"], fixed_len=params["longint"])
+            A(allc(dg, lambda ch: z.in_range_c(ch, 48, 57)))
+            J = SymStr.lift(concat(["Q9. ", dg, " : s"]))
+        else:
+            J = SymStr.fresh("J", cap)
+            A(allc(J, printable_ascii))
         # the junk line is not a section title
         Js = SymStr.lift(J.strip())
         A(z.Not(B(Js.startswith("~"))))
